@@ -2,7 +2,9 @@
 (* Trace validation for C22 *)
 EXTENDS IOFaultOps
 (* ---- trace validation: one record = one run: the ops with what is_error reported ---- *)
-Recs == ndJsonDeserialize(IOEnv.TRACE)
+\* parsed once at start-up into a TLC register (TLC re-evaluates a definition that reads a file on every reference)
+ASSUME TLCSet(7, ndJsonDeserialize(IOEnv.TRACE))
+Recs == TLCGet(7)
 Verdict(rec) ==
   LET stepOK(i) == rec.steps[i].seen = (IF rec.steps[i].fault THEN "true" ELSE "false")
       bad == {i \in 1..Len(rec.steps) : ~stepOK(i)}
